@@ -384,6 +384,26 @@ pub fn texts(tier: &str, seed: u64, mut f: impl FnMut(&str, &str)) {
                 }
             }
         }
+        // lines that resemble a section header (trailing comment or junk, stray brackets, other
+        // case) anywhere in the file: every decoder must route the following lines alike
+        if i % 4 == 1 {
+            for _ in 0..r.range(1, 3) {
+                let sec = *r.pick(&["General", "Editor", "Metadata", "Difficulty", "Events", "TimingPoints", "Colours", "HitObjects"]);
+                let look = match r.below(9) {
+                    0 => format!("[{}] // song info", sec),
+                    1 => format!("[{}]//x", sec),
+                    2 => format!("[{}] x", sec),
+                    3 => format!("[{}", sec),
+                    4 => format!("{}]", sec),
+                    5 => format!("[{}]]", sec),
+                    6 => format!("[[{}]", sec),
+                    7 => format!("[{}]", sec.to_lowercase()),
+                    _ => format!("[{}],1,2", sec),
+                };
+                let at = 1 + r.below(lines.len().max(2) - 1);
+                lines.insert(at.min(lines.len()), look);
+            }
+        }
         let nl = if i % 7 == 0 { "\r\n" } else { "\n" };
         f(&(lines.join(nl) + nl), &format!("grammar-level{}", o.level));
     }
